@@ -57,6 +57,14 @@ class C13Episode(Episode):
 
     def on_spawn(self, p):
         wc = self.spec.get(p.marker)
+        if wc is None and p.orig_parent == self.world.kernel.getpid_value:
+            # every generated command line carries --marker=<watcher>: a
+            # worker without it was started with a mangled argument vector
+            self.viol('argv_differs',
+                      'worker %d was started with argv %r: the --marker '
+                      'argument every configured command line carries is '
+                      'missing' % (p.pid, p.argv), once=('nomarker',),
+                      part='marker_lost')
         if wc is None:
             return
         o = wc['opts']
@@ -140,7 +148,11 @@ class C13Episode(Episode):
 
 
 WORDS = ['abc', '--opt=val', 'x', '-v', 'a.b', 'path/to/file', '100%', 'a$b',
-         '$HOME', '$$', '{curly}', 'semi;colon', 'eq=', 'ünï']
+         '$HOME', '$$', '{curly}', 'semi;colon', 'eq=', 'ünï',
+         # characters that mean something to a shell or to shlex options
+         # other than the documented ones (comments, globbing, pipes)
+         '--colour=#fff', '#', 'url#frag', '*.log', 'a|b', '&', '~user',
+         'back`tick`', '!bang', 'tab\there']
 QUOTED = ["'two words'", '"dq words"', 'esc\\ aped', "'it''s'", '"a \'b\' c"',
           "''", '"$(circus.wid)"', "'((circus.wid)) x'"]
 REFS = ['$(circus.wid)', '((circus.wid))', '$(CIRCUS.WID)', '((Circus.Wid))',
@@ -202,9 +214,11 @@ class C13(Prop):
             if rng.random() < 0.3:
                 o['copy_env'] = True
             cmdtok = ['prog%d' % i] + gen_tokens(rng, rng.randrange(0, depth))
-            cmdtok += ['--marker=%s' % wc['marker'], '--wid=$(circus.wid)']
-            rng.shuffle(cmdtok[1:])
-            wc['cmd'] = ' '.join(cmdtok)
+            tail = cmdtok[1:] + ['--marker=%s' % wc['marker'],
+                                 '--wid=$(circus.wid)']
+            if rng.random() < 0.5:
+                rng.shuffle(tail)
+            wc['cmd'] = ' '.join(cmdtok[:1] + tail)
             r = rng.random()
             if r < 0.35:
                 o['args'] = ' '.join(gen_tokens(rng, rng.randrange(1, depth)))
